@@ -98,7 +98,10 @@ class Closure:
 SAFE_METHODS = {
     list: {'append', 'extend', 'pop', 'insert', 'index', 'copy', 'count', 'reverse', 'sort', 'remove', 'clear'},
     dict: {'get', 'items', 'keys', 'values', 'pop', 'setdefault', 'copy', 'update'},
-    str: {'upper', 'lower', 'strip', 'split', 'startswith', 'endswith', 'join', 'replace', 'isdigit', 'format'},
+    str: {'upper', 'lower', 'strip', 'lstrip', 'rstrip', 'split', 'rsplit', 'splitlines', 'startswith', 'endswith', 'join', 'replace', 'isdigit', 'format',
+          'find', 'rfind', 'index', 'rindex', 'count', 'isalpha', 'isalnum', 'isspace', 'islower', 'isupper', 'title', 'capitalize', 'casefold', 'swapcase',
+          'zfill', 'ljust', 'rjust', 'center', 'partition', 'rpartition', 'removeprefix', 'removesuffix', 'expandtabs', 'isidentifier', 'isnumeric',
+          'isdecimal', 'istitle', 'translate'},
     set: {'add', 'discard', 'copy', 'update'},
     tuple: {'index', 'count'},
     re.Match: {'group', 'groups', 'start', 'end', 'span'},
@@ -110,6 +113,7 @@ class Interp:
         self.isa = isa or {}          # kind -> set of base kinds
         self.stubs = stubs or {}      # dotted callee text -> python callable(interp, *args, **kwargs)
         self.methods = methods or {}  # kind -> {method name: FunctionDef}: methods of the analysed class, interpreted when a stand-in is asked for them
+        self.module = None            # ast.Module of the analysed code: its top-level constants and functions resolve free names
         self.steps = 0
         self.max_steps = max_steps
         self.trace = []               # (callee text, args, kwargs) of stub calls
@@ -284,6 +288,12 @@ class Interp:
                 return {'True': True, 'False': False, 'None': None}[e.id]
             if e.id in ('str', 'int', 'float', 'list', 'dict', 'tuple', 'set', 'bool'):
                 return e.id
+            if self.module is not None:
+                for st in self.module.body:
+                    if isinstance(st, ast.Assign) and any(isinstance(t, ast.Name) and t.id == e.id for t in st.targets):
+                        return self.ev(st.value, Env())
+                    if isinstance(st, ast.FunctionDef) and st.name == e.id:
+                        return Closure(st, Env(), self)
             if e.id[:1].isupper() or e.id in ('ast', 'sa', 're', 'copy', 'utils', 'steps', 'dt', 'datetime') or e.id in {k.split('.')[0] for k in self.stubs}:
                 return ClassRef(e.id)       # a class / module of the repository: only used as callee or in isinstance
             raise AnalysisError(f'interpreter: free variable `{e.id}` (line {getattr(e, "lineno", "?")}) has no stand-in')
@@ -396,7 +406,20 @@ class Interp:
                 return ClassRef(base.kind)
             m = self.methods.get(base.kind, {}).get(attr)
             if m is not None:
+                decos = {norm(x) for x in m.decorator_list}
+                if 'staticmethod' in decos:
+                    return lambda *a, **k: self.call_function(m, list(a), dict(k), Env())
+                if 'classmethod' in decos:
+                    return lambda *a, **k: self.call_function(m, [ClassRef(base.kind)] + list(a), dict(k), Env())
+                if 'property' in decos:
+                    return self.call_function(m, [base], {}, Env())
                 return lambda *a, **k: self.call_function(m, [base] + list(a), dict(k), Env())
+            if base.attrs.get('_fluent'):
+                # a generative library object (SQLAlchemy select): every method call is logged and returns the object itself
+                def logged(*a, _attr=attr, **k):
+                    base.attrs['_log'].append((_attr, a, k))
+                    return base
+                return logged
             raise AnalysisError(f'interpreter: stand-in {base!r} has no attribute `{attr}` (`{d}`)')
         if isinstance(base, dict) and attr in base:
             return base[attr]
@@ -448,6 +471,10 @@ class Interp:
                     return o
                 if callable(f):
                     return f(*args, **kwargs)
+            if self.module is not None:
+                for st in self.module.body:
+                    if isinstance(st, ast.FunctionDef) and st.name == n:
+                        return self.call_function(st, args, kwargs, Env())
             if n == 'len':
                 return len(args[0])
             if n == 'isinstance':
@@ -466,6 +493,8 @@ class Interp:
                 o = args[0]
                 if isinstance(o, Obj) and args[1] in o.attrs:
                     return o.attrs[args[1]]
+                if isinstance(o, Obj) and (o.attrs.get('_fluent') or args[1] in self.methods.get(o.kind, {})):
+                    return self._getattr(o, args[1], ftxt)
                 if len(args) > 2:
                     return args[2]
                 raise Raised('AttributeError', e)
